@@ -89,7 +89,8 @@ type c10Req struct {
 	Race    string `json:"race,omitempty"` // handle: runs for about the handle timeout; queue: own timeout is about the queueing time; both outcomes allowed
 	Queued  int    `json:"queued"`         // queueing class handed to the model: 0 or the time the blockers ahead hold the workers (ms)
 	Pkg     B      `json:"pkg"`
-	Pre     int32  `json:"pre_ms,omitempty"` // sched scenarios: delay before Protocol.Invoke is entered (the goroutine is not scheduled)
+	Phase   int    `json:"phase_ms,omitempty"` // own-timeout scenarios: sent when the wall clock's millisecond part reaches this value (1..999)
+	Pre     int32  `json:"pre_ms,omitempty"`   // sched scenarios: delay before Protocol.Invoke is entered (the goroutine is not scheduled)
 	// observations
 	Invoked int    `json:"invoked"`
 	Events  string `json:"events,omitempty"` // sched scenarios: order of S (Invoke entered) R (Invoke returned) T (InvokeTimeout called)
@@ -103,7 +104,9 @@ type c10Scn struct {
 	Chunks []int  `json:"chunks,omitempty"` // TCP write sizes (cyclic)
 	// halfclose scenarios (TCP): connection 0 carries the blockers and stays open; every other connection sends its
 	// requests StaggerMs later, then shuts down its sending side (FIN) and keeps reading until the server closes
-	HalfClose bool     `json:"half_close,omitempty"`
+	HalfClose bool `json:"half_close,omitempty"`
+	// runs alone in its child, before the concurrent scenarios: its requests must find idle workers and an empty queue
+	Exclusive bool     `json:"exclusive,omitempty"`
 	StaggerMs int      `json:"stagger_ms,omitempty"`
 	Reqs      []c10Req `json:"reqs"`
 	// observations
@@ -615,7 +618,7 @@ func c10Monitor(s *c10Scn) []c10Fail {
 	for i := range s.Reqs {
 		ids[s.Reqs[i].ID] = true
 	}
-	timingScn := s.Cfg.HT > 0 || s.Kind == "queue" || s.UDP || s.HalfClose
+	timingScn := s.Cfg.HT > 0 || s.Kind == "queue" || s.UDP || s.HalfClose || s.Exclusive
 	onConn := map[int32]int{}
 	for i := range s.Reqs {
 		onConn[s.Reqs[i].ID] = i % s.Conns
@@ -1039,6 +1042,32 @@ func c10GenHalfClose(rng *rand.Rand, cfg c10Cfg, tier string) c10Scn {
 	return s
 }
 
+// requests that carry a small timeout of their own (150..850 ms) and find idle workers and an empty queue: nothing waits,
+// so each of them must be dispatched to the implementation exactly once and answered with the implementation's result - a
+// queue-timeout answer is legal only for a request that really waited longer than its timeout. They are sent one at a
+// time at scripted phases of the wall-clock second (the framework keeps a cached one-second clock), on one connection /
+// socket; the scenario runs alone in its child. Both transports, every configuration, every shape, version and way.
+func c10GenOwnTimeout(rng *rand.Rand, cfg c10Cfg, udp bool, tier string) c10Scn {
+	s := c10Scn{Cfg: cfg, UDP: udp, Kind: "own-timeout", Conns: 1, Chunks: []int{4096}, Exclusive: true}
+	phases := []int{40 + rng.Intn(120), 330 + rng.Intn(120), 620 + rng.Intn(100), 900 + rng.Intn(90)}
+	ids := c10DistinctIDs(rng, len(phases))
+	for i, ph := range phases {
+		q := c10GenReq(rng, cfg, ids[i])
+		q.Func = c10PickFn(rng)
+		if !c10IsKnownVer(q.Ver) {
+			q.Ver = []int16{c10VerTars, c10VerTup, c10VerJSON}[rng.Intn(3)]
+			q.Msg = c10RandBytes(rng, true)
+		}
+		q.Phase = ph
+		// timeouts on either side of the phase, all well above any scheduling delay and below one second
+		q.Timeout = c10PickI32(rng, 150, 200, 250, 400, 500, 650, 850, int32(150+rng.Intn(700)))
+		q.Queued = 0
+		c10Encode(&q)
+		s.Reqs = append(s.Reqs, q)
+	}
+	return s
+}
+
 // races (handle timeout configured): handlers that run for about the handle timeout, so that the goroutine running
 // Invoke and the deadline really race; every outcome the schedules theorem allows is accepted, nothing else
 func c10GenRaceHandle(rng *rand.Rand, cfg c10Cfg, udp bool, tier string) c10Scn {
@@ -1178,9 +1207,9 @@ func c10Configs(tier string) []c10Cfg {
 
 func c10Gen(tier string, rng *rand.Rand) []c10Scn {
 	var out []c10Scn
-	nt, nu, nq, nr, ns, nh := 12, 6, 4, 2, 2, 2
+	nt, nu, nq, nr, ns, nh, no := 12, 6, 4, 2, 2, 2, 2
 	if tier == "thorough" {
-		nt, nu, nq, nr, ns, nh = 90, 36, 12, 8, 8, 8
+		nt, nu, nq, nr, ns, nh, no = 90, 36, 12, 8, 8, 8, 10
 	}
 	for _, cfg := range c10Configs(tier) {
 		for i := 0; i < nt; i++ {
@@ -1188,6 +1217,9 @@ func c10Gen(tier string, rng *rand.Rand) []c10Scn {
 		}
 		for i := 0; i < nu; i++ {
 			out = append(out, c10GenPlain(rng, cfg, true, tier))
+		}
+		for i := 0; i < no; i++ {
+			out = append(out, c10GenOwnTimeout(rng, cfg, i%2 == 0, tier)) // UDP first
 		}
 		for i := 0; i < nh; i++ {
 			if tier != "thorough" && i > 0 && !(cfg.Pool > 0 && cfg.HT == 0) {
